@@ -97,6 +97,56 @@ func (E *Engine) havocAll(st *State, why string) {
 	st.alloc = na
 }
 
+const keepKey = "\x00keep"
+
+// havocAllPreserving: havoc of everything except the listed component families.
+func (E *Engine) havocAllPreserving(st *State, why string, keep []string) {
+	if len(keep) == 0 {
+		E.havocAll(st, why)
+		return
+	}
+	pre := st.heap
+	oldEpoch := pre[epochKey]
+	oldMarks := parseKeep(pre[keepKey])
+	E.havocAll(st, why)
+	marks := map[string]string{}
+	for _, p := range keep {
+		if e, ok := oldMarks[p]; ok {
+			marks[p] = e
+		} else {
+			marks[p] = oldEpoch
+		}
+		for comp, t := range pre {
+			if compHasPrefix(comp, p) {
+				st.heap[comp] = t
+			}
+		}
+	}
+	var ps []string
+	for p := range marks {
+		ps = append(ps, p)
+	}
+	sort.Strings(ps)
+	var sb []string
+	for _, p := range ps {
+		sb = append(sb, p+"="+marks[p])
+	}
+	st.heap[keepKey] = strings.Join(sb, ";")
+}
+
+func parseKeep(s string) map[string]string {
+	m := map[string]string{}
+	if s == "" {
+		return m
+	}
+	for _, kv := range strings.Split(s, ";") {
+		if i := strings.LastIndex(kv, "="); i >= 0 {
+			m[kv[:i]] = kv[i+1:]
+		}
+	}
+	return m
+}
+
 func (E *Engine) growAlloc(st *State) {
 	na := E.freshConst("alloc", "(Array Int Bool)")
 	r := E.freshName("r")
@@ -321,7 +371,21 @@ func (E *Engine) applySpec(st *State, in ssa.Instruction, spec *FuncSpec, callee
 		if E.dry == 0 && E.cur.spec != nil && !E.cur.spec.ModAll {
 			E.oblige(st, "frame-write", E.site(in)+".star", "false", "callee "+label+" modifies *, the caller must declare modifies *", E.pos(in), nil)
 		}
-		E.havocAll(st, "callee "+label+" modifies *")
+		if E.dry == 0 && E.cur.spec != nil {
+			// whatever the caller promises to preserve, the callee must preserve too
+			for _, p := range E.preservedPrefixes(E.cur.spec) {
+				ok := false
+				for _, q := range E.preservedPrefixes(spec) {
+					if p == q || compHasPrefix(p, q) {
+						ok = true
+					}
+				}
+				if !ok {
+					E.oblige(st, "frame-write", E.site(in)+".preserves."+p, "false", "callee "+label+" (modifies *) does not promise to preserve "+p, E.pos(in), nil)
+				}
+			}
+		}
+		E.havocAllPreserving(st, "callee "+label+" modifies *", E.preservedPrefixes(spec))
 	} else {
 		ev := &cenv{E: E, st: st, vars: vars, heap: pre, ctx: spec.Ctx, fc: E.cur}
 		for _, mi := range E.evalModifies(st, E.cur, spec, ev, nil) {
@@ -642,7 +706,7 @@ func (E *Engine) frameCheck(st *State, in ssa.Instruction) {
 	}
 	var comps []string
 	for comp, t := range st.heap {
-		if comp == epochKey || comp == allocKey || E.isImmutable(comp) {
+		if comp == epochKey || comp == allocKey || comp == keepKey || E.isImmutable(comp) {
 			continue
 		}
 		if t != c.entryHeap[comp] && t != qsym("H0:"+comp) {
